@@ -51,6 +51,9 @@ FAMILIES = {
     "SQ2": dict(BASE, Tenants=["t1"], Providers=["p1", "p2"], Auditors=[], DSeqs=[1], GSeqs=[1], OSeqs=[1],
                 GroupChoices="GroupChoicesS", DepositChoices=[2], PriceChoices=[1, 2], AmountChoices=[1],
                 Versions=[1], Gaps=[1, 2], InitCoins=3, MaxHeight=4),
+    "SQ3": dict(BASE, Tenants=["t1"], Providers=["p1"], Auditors=[], DSeqs=[1], GSeqs=[1, 2], OSeqs=[1],
+                GroupChoices="GroupChoicesS2", DepositChoices=[3], PriceChoices=[1], AmountChoices=[1],
+                Versions=[1], Gaps=[1, 2], InitCoins=4, MaxHeight=3),
     # exhaustive: every state and every transition of this bounded model is visited by TLC
     "SX": dict(BASE, Tenants=["t1"], Providers=["p1", "p2"], Auditors=[], DSeqs=[1], GSeqs=[1], OSeqs=[1, 2],
                GroupChoices="GroupChoicesS", DepositChoices=[2], PriceChoices=[1], AmountChoices=[1],
@@ -71,9 +74,10 @@ ESCROW_FAMILIES = {
 FAMILIES.update(ESCROW_FAMILIES)
 
 # which families matter for which property (quick tier); thorough runs all of them
-QUICK = {"C01": ["SQ1", "SQ2", "A", "E"], "C02": ["E", "A", "SQ1"], "C03": ["SQ1", "SQ2", "S", "E"], "C04": ["SQ1", "SQ2", "A"],
-         "C05": ["SQ1", "SQ2", "S"], "C06": ["B", "S", "SQ2"], "C07": ["R", "SQ1"], "C08": ["RX", "R"], "C16": ["SQ1", "SQ2", "R"]}
-EXHAUSTIVE = {"SX", "SQ1", "SQ2", "RX", "E", "E3"}
+QUICK = {"C01": ["SQ1", "SQ3", "A", "E"], "C02": ["E", "A", "SQ1"], "C03": ["SQ1", "SQ2", "S", "E"], "C04": ["SQ1", "SQ2", "SQ3", "A"],
+         "C05": ["SQ1", "SQ2", "SQ3", "S"], "C06": ["B", "R", "SQ2"], "C07": ["R", "SQ1"], "C08": ["RX", "R"],
+         "C16": ["SQ1", "SQ2", "SQ3", "R"]}
+EXHAUSTIVE = {"SX", "SQ1", "SQ2", "SQ3", "RX", "E", "E3"}
 PAR = max(2, min(8, vlib.NCPU // 2))     # concurrent harness processes / J3 JVMs
 NODE_CAP_QUICK = 80000
 NODE_CAP_THOROUGH = 400000
@@ -195,7 +199,7 @@ def run_harness(vh, fam, work, nodes, alpha, expand, seed, shards, reps):
         cmd = [vh, "chain", "explore", "--config", os.path.join(work, "world.json"), "--paths", os.path.join(work, "paths.%d.ndjson" % i),
                "--alphabet", os.path.join(work, "alphabet.json"), "--out", out, "--nodes", str(per), "--seed", str(seed + i),
                "--shard", "0", "--shards", "1", "--reps", str(reps), "--reps-audit", str(max(4, reps)),
-               "--maxheight", str(maxh), "--all-paths"]
+               "--maxheight", str(maxh), "--all-paths"] + (["--second-app"] if reps >= 3 else [])
         env = dict(os.environ, GOGC="50", GOMAXPROCS="2")
         rc, txt = vlib.run(cmd, timeout=3000, env=env)
         if rc != 0:
@@ -271,6 +275,47 @@ def selftest(fam, trace, pid):
     _, f2, d2 = j3(fam, pb, ["CONF", "C06"], timeout=600)
     res["relabelled_action_rejected"] = bool(any(x[0] == vic for x in d2))
     return res
+
+
+_CASE = re.compile(r'^<<"CASE", "(.*)">>$', re.M)
+_CFAIL = re.compile(r'^<<"FAIL", "C16", "EventCodec", (\d+), "([\w-]+)">>$', re.M)
+
+
+def codec_stage(vh, cov, violations):
+    """C16, second sentence: every event type x boundary value class through the real emit/decode pair (EventCodec.tla)."""
+    r = vlib.tlc(SPEC, "EventCodec", "EventCodec_gen.cfg", workers=1, timeout=600, heap="2g")
+    vlib.tlc_require_ok(r, "J1 EventCodec")
+    cases = [_unq(m.group(1)) for m in _CASE.finditer(r.out)]
+    if len(cases) < 100:
+        raise vlib.Inconclusive("EventCodec exported %d cases" % len(cases))
+    d = vlib.scratch("codec-")
+    open(os.path.join(d, "cases.ndjson"), "w").write("\n".join(cases) + "\n")
+    out = os.path.join(d, "codec.ndjson")
+    rc, txt = vlib.run([vh, "chain", "codec", "--cases", os.path.join(d, "cases.ndjson"), "--out", out], timeout=600)
+    if rc != 0:
+        raise vlib.Inconclusive("codec harness failed: " + txt[-1500:])
+    rj = vlib.tlc(SPEC, "EventCodec", "EventCodec_judge.cfg", workers=1, timeout=600, heap="2g", copy_files={"codec.ndjson": out})
+    if not rj.ok:
+        raise vlib.Inconclusive("EventCodec judge did not complete: %s" % (rj.error or rj.out[-1500:]))
+    lines = open(out).read().splitlines()
+    for m in _CFAIL.finditer(rj.out):
+        ln = lines[int(m.group(1)) - 1]
+        violations.append(vlib.Violation("C16", "EventCodec/%s" % m.group(2), "event codec case: %s" % ln, {"codec_case.json": ln}))
+    # self-test: a line whose decoded price differs must be rejected
+    bad = [json.loads(x) for x in lines[:50]]
+    vic = next((i for i, x in enumerate(bad) if "dseq" in x["case"]), None)
+    if vic is not None:
+        bad[vic]["dec"]["dseq"] = "12" if bad[vic]["dec"].get("dseq") != "12" else "1"
+        pb = os.path.join(d, "bad.ndjson")
+        open(pb, "w").write("".join(json.dumps(x) + "\n" for x in bad))
+        rb = vlib.tlc(SPEC, "EventCodec", "EventCodec_judge.cfg", workers=1, timeout=300, heap="1g", copy_files={"codec.ndjson": pb})
+        cov["codec_selftest_rejected"] = bool([m for m in _CFAIL.finditer(rb.out) if int(m.group(1)) == vic + 1])
+        if not cov["codec_selftest_rejected"]:
+            raise vlib.Inconclusive("event codec self-test: corrupted line not rejected")
+    cov["codec_cases"] = len(cases)
+    cov["evaluations"] += len(cases)
+    cov["traces_validated_against_impl"] += 1
+    cov["samples"].append({"event_codec_case": json.loads(lines[len(lines) // 2])})
 
 
 def run(pid, tier, seed, replay):
@@ -354,6 +399,8 @@ def run(pid, tier, seed, replay):
         cov["configs"].append({"family": fam, "mode": "simulate" if sim else "exhaustive", "model_states": r1.distinct or exported,
                                "model_transitions": r1.generated or exported, "exported_states": exported, "replayed_states": len(nodes),
                                "alphabet": len(alpha), "impl_steps": nsteps, "j1_wall_s": round(r1.wall_s, 1)})
+    if pid == "C16":
+        codec_stage(vh, cov, violations)
     cov["drift_steps"] = len(drifts)
     for dmsg in drifts[:20]:
         vlib.log("DRIFT " + dmsg)
